@@ -91,6 +91,37 @@ func (f *frame) doCall(v *ssa.Call, st *State, reach string) {
 				for i, a := range com.Args {
 					env[fmt.Sprintf("arg%d", i)] = f.val(a)
 				}
+				// variadic ...any arguments (format operands): varargK is the K-th operand
+				// as the value it had before it was boxed into an interface
+				if n := len(com.Args); n > 0 {
+					if sl, ok := com.Args[n-1].(*ssa.Slice); ok {
+						if al, ok := sl.X.(*ssa.Alloc); ok && al.Comment == "varargs" && al.Referrers() != nil {
+							for _, r := range *al.Referrers() {
+								ia, ok := r.(*ssa.IndexAddr)
+								if !ok || ia.Referrers() == nil {
+									continue
+								}
+								kc, ok := ia.Index.(*ssa.Const)
+								if !ok {
+									continue
+								}
+								for _, r2 := range *ia.Referrers() {
+									if stv, ok := r2.(*ssa.Store); ok && stv.Addr == ssa.Value(ia) {
+										var ov ssa.Value = stv.Val
+										if mi, ok := ov.(*ssa.MakeInterface); ok {
+											ov = mi.X
+										}
+										if _, known := f.vals[ov]; known {
+											env[fmt.Sprintf("vararg%d", kc.Int64())] = f.val(ov)
+										} else if _, isConst := ov.(*ssa.Const); isConst {
+											env[fmt.Sprintf("vararg%d", kc.Int64())] = f.val(ov)
+										}
+									}
+								}
+							}
+						}
+					}
+				}
 				// clauses that share a label are one obligation (a conjunction) per call site
 				var labels []string
 				byLabel := map[string][]string{}
